@@ -152,9 +152,12 @@ def showWant : Want → String
   | .deliverFrame f => s!"frame {showIn (some f)}" | .tooBig => "ErrMessageTooBig" | .frag e => showErr e
   | .deliverMsg t d => s!"message type={t} data={showHex d}" | .accepted => "nil" | .refused => "an error (refused)"
 
-/-- Replay a script against the monitor; `mstep` lets the model acceptor follow along. -/
+/-- Replay a script against the monitor; `mstep` lets the model acceptor follow along. A line `? defer` says that from
+here on the scripted transport holds asynchronous writes back (until the `flush async` that reports the pump): the monitor
+is unaffected (frames inside the transport are counted as pending by the harness), the model acceptor is told through
+`mdefer` (the model of stream.go is written for a transport that completes every write at once and stops following). -/
 def checkWith {σ : Type} (sc : Driver.Script) (m0 : Nat → σ)
-    (mstep : σ → Op → Obs → Driver.Result → Nat → (σ × Driver.Result)) : Driver.Result := Id.run do
+    (mstep : σ → Op → Obs → Driver.Result → Nat → (σ × Driver.Result)) (mdefer : σ → σ := id) : Driver.Result := Id.run do
   let mut res : Driver.Result := {}
   let mut m : σ := m0 0
   let mut s : Option S := some (init 0)
@@ -164,7 +167,11 @@ def checkWith {σ : Type} (sc : Driver.Script) (m0 : Nat → σ)
   let mut i := 0
   for ln in sc.lines do
     i := i + 1
-    if ln.kind == '!' then
+    if ln.kind == '?' then
+      if ln.toks == ["defer"] then
+        m := mdefer m
+        res := { res with tags := Driver.addTag res.tags "write-held-back-by-the-transport" }
+    else if ln.kind == '!' then
       match ln.toks with
       | ["new", n] =>
         let n := (nat? n).getD 0
